@@ -1,16 +1,16 @@
 #!/bin/bash
 # tools/trial.sh <patch.diff|none> <Cxx> [<Cxx> ...]
 # Seeded-defect trial on a scratch copy: /tmp/trial/repo is a git worktree of /repo's HEAD, /tmp/trial/verif a copy
-# of the harness whose path dependencies point at it. /repo itself is never touched. TIER=quick|thorough.
+# of the harness (HARNESS=<dir> picks a development copy) whose path dependencies point at it. /repo itself is never touched. TIER=quick|thorough.
 set -u
-T=/tmp/trial
+T="${TRIAL_DIR:-/tmp/trial}"
 P="$1"; shift
 [ "$P" != none ] && P="$(readlink -f "$P")"
 if [ ! -d $T/repo ]; then mkdir -p $T && git -C /repo worktree add -q --detach $T/repo HEAD || exit 2; fi
 git -C $T/repo checkout -q --detach "$(git -C /repo rev-parse HEAD)" 2>/dev/null
 git -C $T/repo checkout -q -- . ; git -C $T/repo clean -fdq
 mkdir -p $T/verif/harness $T/verif/evidence $T/verif/replays
-rsync -a --delete --exclude target /verif/harness/ $T/verif/harness/
+rsync -a --delete --exclude target "${HARNESS:-/verif/harness}"/ $T/verif/harness/
 cp /verif/known_findings.json $T/verif/
 sed -i "s#/repo/#$T/repo/#g" $T/verif/harness/Cargo.toml
 sed -i "s#/verif/target#$T/target#" $T/verif/harness/.cargo/config.toml
